@@ -299,8 +299,20 @@ func newSessionNet(tables []hist.Table, serverID uint32, start hist.Pos, network
 	}
 	mp := newMapper(tables)
 	dsn := m.DSNNet(network)
+	if len(dsnParams) == 0 && mp.hash&24 == 8 {
+		// a DSN as applications share it with database/sql: parameters that mean something to query results
+		// (how DATETIME columns are scanned) and nothing to a binlog dump
+		dsnParams = []string{"parseTime=true", "loc=UTC"}
+	}
 	if len(dsnParams) > 0 {
 		dsn += "?" + strings.Join(dsnParams, "&")
+	}
+	// one session in four runs with a logger that really formats its messages, as the library's default
+	// logger does (formatting calls String() methods and walks every argument)
+	if mp.hash&(4+32) == 4 {
+		atomic.StoreInt32(&logFormats, 1)
+	} else {
+		atomic.StoreInt32(&logFormats, 0)
 	}
 	s, err := gobinlog.NewStreamer(dsn, serverID, mp)
 	if err != nil {
